@@ -21,6 +21,9 @@ CONFIGS = [
     # resource-level comparisons: several waiters of different thresholds on one level that rises and falls
     ('levels', dict(B, NRoots=3, MaxActs=3, RootOps=3, NFlags=1, NRes=1, MaxPools=2, ResInit=1, Horizon=1,
                     Menu={'instant', 'await_lvl', 'rchange'}), INV),
+    # all six comparisons of a tracked value (>=, <=, >, <, ==, !=), two activities
+    ('rels', dict(B, NRoots=2, MaxActs=2, RootOps=3, NFlags=1, NRes=1, MaxPools=2, ResInit=1, Horizon=1,
+                  Menu={'instant', 'await_lvl', 'lvl_rels', 'rchange'}), INV),
     # nested connectives: the model follows the code (known finding), so NoMissedWake is not claimed here
     ('nested', dict(B, NRoots=2, MaxActs=2, RootOps=3, NFlags=2, CondSel='nested',
                     Menu={'instant', 'sleep', 'fset', 'await_conn'}), ('NoFault', 'RunLive')),
